@@ -48,6 +48,70 @@ _CANDELA = Quantity(1, "cd")
 
 
 
+AMBIENT = {"problems": [], "asked": 0, "busy": False, "q": None, "turn": 0}
+
+
+def _ambient_class():
+    from scinumtools.units.unit_types import UnitType
+
+    class AmbientType(UnitType):
+        """A conversion class whose `_istype` is ordinary user code that uses the library (the
+        way a Mach-number unit looks up the ambient temperature) - while the conversion that
+        asked it is half-way through.  It always declines."""
+
+        def _istype(self):
+            if AMBIENT["busy"]:
+                return False          # asked by its own conversions below
+            AMBIENT["busy"] = True
+            AMBIENT["asked"] += 1
+            q = AMBIENT["q"]
+            try:
+                calls = [lambda: q["t"].value("K"), lambda: Quantity(10.0, "dBm").value("mW"),
+                         lambda: float(np.cos(Quantity(60.0, "deg")).value()),
+                         lambda: (q["l1"] + q["l2"]).value("m"),
+                         lambda: (q["l1"] - q["l2"]).value("cm"),
+                         lambda: bool(q["l1"] == q["l2"]), lambda: Quantity(3.0, "km").value("m")]
+                want = [293.15, 10.0, 0.5, 1.2, 80.0, False, 3000.0]
+                # what the user code did last varies from one time it is asked to the next
+                k = AMBIENT["turn"] % len(calls)
+                AMBIENT["turn"] += 1
+                calls, want = calls[k:] + calls[:k], want[k:] + want[:k]
+                got = [c() for c in calls]
+                for g, w in zip(got, want):
+                    if isinstance(w, bool):
+                        ok = g == w
+                    else:
+                        ok = abs(g - w) <= 1e-6 * abs(w)   # (the table's degree is good to 8 digits)
+                    if not ok:
+                        AMBIENT["problems"].append(["nested use of the library", want, got])
+                        break
+                state = [q["t"].value(), q["t"].units(), q["l1"].value(), q["l1"].units(),
+                         q["l2"].value(), q["l2"].units()]
+                if state != [20.0, "Cel", 1.0, "m", 20.0, "cm"]:
+                    AMBIENT["problems"].append(["operands of the nested operations",
+                                                [20.0, "Cel", 1.0, "m", 20.0, "cm"], state])
+                    AMBIENT["q"] = _ambient_quantities()
+            except Exception as e:
+                AMBIENT["problems"].append(["nested use of the library", "no error",
+                                            type(e).__name__ + repr(e.args)[:160]])
+            finally:
+                AMBIENT["busy"] = False
+            return False
+
+    return AmbientType
+
+
+def _ambient_quantities():
+    return {"t": Quantity(20.0, "Cel"), "l1": Quantity(1.0, "m"), "l2": Quantity(20.0, "cm")}
+
+
+def open_ambient_scope():
+    from scinumtools.units import UnitEnvironment
+    AMBIENT.update(problems=[], asked=0, busy=False, q=_ambient_quantities(), turn=0)
+    return UnitEnvironment({"ambq": {"magnitude": 1.0, "dimensions": [0, 0, 0, 0, 0, 0, 0, 0],
+                                     "definition": _ambient_class()}})
+
+
 def twin_reading(a, unit):
     """What a quantity built now from a's own public report (value(), units()) reads in `unit`.
     "The same value()" holds for a reading in any unit; a converter or factor remembered on the
@@ -221,6 +285,9 @@ class QuantityMachine(Machine):
             "p_follow_inplace": rng.choice([0.0, 0.3, 0.6]),
             "numpy": rng.random() < 0.7,
             "p_bad_target": rng.choice([0.0, 0.1, 0.3]),
+            # the whole run takes place inside a unit scope whose conversion class uses the
+            # library itself whenever it is asked (and always declines)
+            "ambient": rng.random() < 0.3,
         }
 
     @classmethod
@@ -244,6 +311,7 @@ class QuantityMachine(Machine):
             "p_value": rng.choice([0.2, 0.5]),
             "custom_scopes": rng.random() < 0.5,
             "max_chain": 30,
+            "ambient": rng.random() < 0.3,
         }
 
     # ------------------------------------------------------------------ lifecycle
@@ -259,9 +327,18 @@ class QuantityMachine(Machine):
         self.acc = Unit()          # one long-lived accessor per run
         self._counter = 0
         self.last_slot = None
+        self.ambient = None
+        if self.cfg.get("ambient"):
+            self.ambient = open_ambient_scope()
 
     def stop(self):
         self.pool = []
+        if getattr(self, "ambient", None) is not None:
+            try:
+                self.ambient.close()
+            except Exception:
+                pass
+            self.ambient = None
 
     # ------------------------------------------------------------------ generation helpers
     def _gen_value(self, rng, kind, small=False):
@@ -672,10 +749,21 @@ class QuantityMachine(Machine):
 
     def apply(self, op):
         self._counter += 1
+        AMBIENT["problems"] = []
+        AMBIENT["asked"] = 0
         if self.mode == "C04":
             out = self._apply_c04(op)
         else:
             out = self._apply_c07(op)
+        if self.ambient is not None:
+            self.stats.fault("conversion_class_uses_the_library_when_asked", AMBIENT["asked"] > 0)
+            if AMBIENT["problems"]:
+                probs, AMBIENT["problems"] = AMBIENT["problems"], []
+                raise Violation("library_used_from_a_conversion_class_misbehaves",
+                                {"operation": {k: v for k, v in op.items() if k != "of"},
+                                 "problems [what, want, got]": probs[:3]},
+                                signature=f"{self.cfg['prop']}/reentry/" +
+                                          "".join(c if c.isalnum() else "_" for c in probs[0][0])[:40])
         self.abstract = f"p{len(self.pool)}" + ("i" if self.inplace_seen else "")
         return out
 
@@ -1166,8 +1254,15 @@ class QuantityMachine(Machine):
                                  "to": led["text"], "got": safe_repr(got), "want": safe_repr(want)},
                                 signature="C04/value/rebase")
             # back to the unit text the ledger knows
-            with np.errstate(all="ignore"):
-                q.to(led["text"])
+            try:
+                with np.errstate(all="ignore"):
+                    q.to(led["text"])
+            except Exception as ex:
+                raise Violation("same_dimension_conversion_refused",
+                                {"from": safe_repr(q.units()), "via": "to() after rebase()",
+                                 "to": led["text"],
+                                 "error": [type(ex).__name__, repr(ex.args)[:200]]},
+                                signature="C04/accept_missing/rebase_back")
             led["chain"] += 2
             self.nontrivial = True
             return "rebase_ok", led["text"]
